@@ -30,7 +30,7 @@ func init() {
 	register(&propCheck{
 		id:    "C10",
 		title: "Any font that was read can be written and re-read without further change",
-		explanation: "Decides structural clauses of C10: (a) name provenance — every conversion of non-constant data to a PostScript name in the interpreter is fed from bytes that passed the regular-character test, or is used for look-ups only, so that glyph names, encoding entries and the font name of a font that was read are accepted by the name serialiser (whose panic is the only data-dependent failure of the writer); " +
+		explanation: "Decides structural clauses of C10: (a) name provenance — every conversion of non-constant data to a PostScript name in the interpreter is fed from bytes that passed the regular-character test, or is used for look-ups only, so that glyph names, encoding entries and the font name of a font that was read are accepted by the name serialiser (whose panic is the only data-dependent failure of the writer), and the serialiser, evaluated for every byte and for regular bytes that spell multi-byte characters, accepts exactly the names made of bytes the scanner keeps in a name; " +
 			"(b) the path-command switch of the encoder is exhaustive and every GlyphOp literal in the reader has the number of coordinates the encoder indexes; (c) template escaping — every string-typed field is written through PS, PN or the comment sanitiser, or is length-prefixed binary; a field written raw is also written through PN, which rejects line breaks, or only ever holds constant text or a time in a constant layout; the string function of the template, evaluated for every byte alone, next to parentheses and before a digit, writes text that the PLRM's string syntax reads back as the same bytes (a string that was read is written back as itself); (d) quantisation sources — the only rounding calls on the write path are the two width roundings, and the only lossy number path is appendNumber (C20), which is a projection: integral values pass unchanged, every denominator 1..107 is tried and the best one taken, the quotient written is the value returned (so a value that was read back is written as itself); (e) the default-elision window and the defaults agree (shared with C09). " +
 			"It does NOT decide equality under tolerance, idempotence of the second cycle as a numerical statement, nor non-finite numbers.",
 		trusted:     []string{"text/template/parse", "go/ssa"},
@@ -366,6 +366,13 @@ func runRoundTrip(c *Ctx, closure bool) {
 		// ---- a string that was read is written in a form that reads back as itself (ext_a.go)
 		c.writtenStringsReadBack(tk, rk)
 		c.nameProvenance()
+		// the other half of the name clause: the serialiser accepts every name made of bytes the scanner
+		// keeps in a name, whatever characters those bytes spell (C04's rule LEX-NAME, ext_a.go)
+		if regular, why := c.regularClass(); why != "" {
+			c.undecided("LEX-NAME", "postscript.isRegular", "the regular-character class", token.NoPos, why)
+		} else {
+			c.nameWriter(regular)
+		}
 		c.roundingSources()
 		c.quantisationRule() // ext_a.go
 		// the one lossy number path must be a projection, or the second write/read cycle moves the
